@@ -10,7 +10,14 @@ CFG = {
             "every offset, random byte flips); length fields (Content-Length, chunk sizes, status code, 16- and 64-bit "
             "frame lengths) replaced by boundary and huge values up to 2^64 and beyond; nesting of JSON arrays/objects "
             "and of config sections up to 1 000 000 / 100 000 deep; very long strings and numbers; random bytes "
-            "biased towards protocol bytes; each delivered whole and (up to 600 bytes) one byte per read. Observed "
+            "biased towards protocol bytes; each delivered whole and (up to 600 bytes) one byte per read. The WebSocket "
+            "MESSAGE decoder (Message::from_stream / from_stream_nonblocking behind WebsocketStream) additionally runs "
+            "sessions (C11's runner and judge): control frames of every small length, unfinished fragments, every "
+            "truncation point, and C11's large-scale family (lib/propdefs/C11.py): floods of 1 000 / 20 000 / 200 000 "
+            "(thorough up to 1 000 000) Pings or Pongs before, inside, after a message and with nothing after, messages of "
+            "up to 10 000 (20 000) fragments, up to 10 000 (20 000) messages on one connection, payloads at the "
+            "125/126/65 535/65 536 boundaries and up to 1 MiB (4 MiB), each session in a worker process on a thread "
+            "with Rust's default 2 MiB stack and a 30 s watchdog. Observed "
             "per case: value / error / panic / process abort / no answer, and peak allocation against the bound "
             "512 KiB + 32 x input length. Compared with the class the Lean model predicts. Non-trivial = every case; "
             "distinct = distinct case line.",
@@ -20,7 +27,8 @@ CFG = {
                      "stack depth and allocator behaviour are observed on the real code only; the theorems bound depth "
                      "and buffered bytes in the model"],
     "assumptions": ["Value::parse and parse_conf take &str: inputs that are not UTF-8 cannot reach them (counted as notutf8)",
-                    "the WebSocket MESSAGE loop (fragment accumulation, ping/close handling) is covered at frame level here and by C11 at message level"],
+                    "the WebSocket MESSAGE loop (fragment accumulation, ping/close handling) is run as C11 sessions (value/abort/hang "
+                    "observed in a worker process; peak allocation is not measured for sessions)"],
     "design_ref": "6.3",
     "level_text": "request_parser_never_panics and response_parser_never_panics for EVERY byte source and input (the models "
                   "keep Rust's panic sites explicit); request_body_le_supplied: a parsed body plus the unread rest fits in "
